@@ -175,3 +175,15 @@ func forall(lo, hi int, f func(int) bool) bool {
 //@   property C13
 //@   trusted
 //@   ensures result1 == ghostIsSnap(filePath) && (result1 ==> result0 == ghostSnapID(filePath) && filePath != "")
+
+// ---- publication (C13): finishing a checkpoint never loses the newest completed
+// one, even if a later checkpoint was published while this one was still being
+// written. old(...) of the guarded state is its value when stateMu was acquired.
+//@ func Store.finishSnapshotAsync
+//@   property C13 C12
+//@   nosafety
+//@   requires snap != nil
+//@   modifies s.state
+//@   ensures result1 == nil ==> forall(0, old(len(s.state.completedSnapshots)), func(j int) bool {
+//@           return exists(0, len(s.state.completedSnapshots), func(k int) bool { return s.state.completedSnapshots[k].id >= old(s.state.completedSnapshots)[j].id }) })
+//@   ensures result1 == nil ==> exists(0, len(s.state.completedSnapshots), func(k int) bool { return s.state.completedSnapshots[k].id >= snap.id })
